@@ -273,7 +273,10 @@ class SMDH:
         names: Dict[str, AppTitle] = {}
         # due to region_names only being 12 elements, this will only process 12. the other 4 are unused.
         for app_title, region in zip((app_structs[x:x + 0x200] for x in range(0, 0x2000, 0x200)), region_names):
-            names[region] = AppTitle.from_bytes(app_title)
+            try:
+                names[region] = AppTitle.from_bytes(app_title)
+            except UnicodeDecodeError as e:
+                raise InvalidSMDHError(f'{region} title is not valid UTF-16') from e
 
         icon_raw_small = smdh[0x2040:0x24C0]
         icon_raw_large = smdh[0x24C0:0x36C0]
